@@ -19,6 +19,8 @@ pub fn replay(beh: &Value) -> Value {
         "aln" => replay_aln(beh),
         "filter" => replay_filter(beh),
         "tblhist" => replay_tblhist(beh),
+        "filter1" => replay_filter1(beh),
+        "dist1" => replay_dist1(beh),
         "idx" => replay_idx(beh),
         "dispatch" => replay_dispatch(beh),
         _ => json!({"ok": false, "kind": kind, "why": "unknown replay kind"}),
@@ -143,4 +145,91 @@ fn replay_dispatch(beh: &Value) -> Value {
         return verdict("dispatch", false, "loader acceptance differs", json!([beh["accept64"], beh["accept128"]]), json!([a64, a128]));
     }
     verdict("dispatch", true, "", Value::Null, Value::Null)
+}
+
+/// One filter application: {rows:[[km,bases]..], ns, setting:{thr,filter,am,mask,ng}, keep:[[km,bases]..]}
+/// Executed twice in the real code: filter(update_kmers = true) + projection, and
+/// filter(update_kmers = false) + write_fasta (what `ska align` does).
+fn replay_filter1(beh: &Value) -> Value {
+    let ns = beh["ns"].as_u64().unwrap() as usize;
+    let names: Vec<String> = (0..ns).map(|i| format!("s{i}")).collect();
+    let table = json!({"k": 5, "rc": true, "names": names, "rows": beh["rows"]});
+    let st = &beh["setting"];
+    let mut want: Vec<Value> = beh["keep"].as_array().cloned().unwrap_or_default();
+    want.sort_by_key(|v| v.to_string());
+    for update in [true, false] {
+        let steps = if update {
+            json!([{"do": "filter", "min_count": st["thr"], "ambig_missing": st["am"], "filter": st["filter"],
+                    "mask": st["mask"], "nogap": st["ng"], "update": true}, {"do": "proj"}])
+        } else {
+            json!([{"do": "filter", "min_count": st["thr"], "ambig_missing": st["am"], "filter": st["filter"],
+                    "mask": st["mask"], "nogap": st["ng"], "update": false}, {"do": "fasta"}])
+        };
+        let ev = ops::exec(&json!({"op": "tbl", "w": 64, "table": table, "steps": steps}));
+        let outs = ev["outs"].as_array().cloned().unwrap_or_default();
+        if outs.len() != 2 || outs.iter().any(|o| o["panic"].as_str().unwrap_or("x") != "") {
+            return verdict("filter1", false, "panic in filter", json!(want), ev);
+        }
+        if update {
+            let mut got: Vec<Value> = outs[1]["rows"].as_array().cloned().unwrap_or_default();
+            got.sort_by_key(|v| v.to_string());
+            if got != want {
+                return verdict("filter1", false, "kept rows differ (filter with update_kmers)", json!(want), json!(got));
+            }
+        } else {
+            // columns of the alignment = kept rows (as a multiset)
+            let seqs = outs[1]["seqs"].as_array().cloned().unwrap_or_default();
+            let ncol = seqs.first().and_then(|s| s.as_array()).map(|a| a.len()).unwrap_or(0);
+            let mut cols: Vec<String> = (0..ncol)
+                .map(|j| json!(seqs.iter().map(|s| s[j].clone()).collect::<Vec<Value>>()).to_string())
+                .collect();
+            cols.sort();
+            let mut wcols: Vec<String> = want.iter().map(|r| r[1].to_string()).collect();
+            wcols.sort();
+            if seqs.len() != ns || cols != wcols {
+                return verdict("filter1", false, "alignment columns differ (filter + write_fasta)", json!(wcols), json!(cols));
+            }
+        }
+    }
+    verdict("filter1", true, "", Value::Null, Value::Null)
+}
+
+/// One distance computation: {ns, rows, thr, pairs:[[i,j,snps,num,den]..]} through
+/// generic_modes::distance (the whole `ska distance` pipeline, in process, 1 thread).
+fn replay_dist1(beh: &Value) -> Value {
+    let ns = beh["ns"].as_u64().unwrap() as usize;
+    let thr = beh["thr"].as_u64().unwrap() as usize;
+    let names: Vec<String> = (0..ns).map(|i| format!("s{i}")).collect();
+    let table = json!({"k": 5, "rc": true, "names": names, "rows": beh["rows"]});
+    // min_freq with ceil(ns * f) = thr
+    let minf = if thr == 0 { 0.0 } else { ((1000 * thr) / ns) as f64 / 1000.0 };
+    let ev = ops::exec(&json!({"op": "distcmd", "w": 64, "table": table, "min_freq": minf, "filt_ambig": true}));
+    if ev["panic"].as_str().unwrap_or("") != "" {
+        return verdict("dist1", false, "panic", beh["pairs"].clone(), ev);
+    }
+    let rows = ev["rows"].as_array().cloned().unwrap_or_default();
+    let want = beh["pairs"].as_array().cloned().unwrap_or_default();
+    if rows.len() != want.len() {
+        return verdict("dist1", false, "number of pairs differs", json!(want), json!(rows));
+    }
+    for w in &want {
+        let (i, j) = (w[0].as_u64().unwrap() as usize - 1, w[1].as_u64().unwrap() as usize - 1);
+        let (snps, num, den) = (w[2].as_i64().unwrap(), w[3].as_i64().unwrap(), w[4].as_i64().unwrap());
+        let found = rows.iter().find(|r| {
+            (r[0] == json!(format!("s{i}")) && r[1] == json!(format!("s{j}")))
+                || (r[0] == json!(format!("s{j}")) && r[1] == json!(format!("s{i}")))
+        });
+        match found {
+            None => return verdict("dist1", false, "pair missing", w.clone(), json!(rows)),
+            Some(r) => {
+                let d100 = r[2].as_i64().unwrap();
+                let p = r[3].as_i64().unwrap();
+                let prop_ok = if den == 0 { p == 0 } else { (p * den - num * 100000).abs() <= den };
+                if d100 != snps * 100 || !prop_ok {
+                    return verdict("dist1", false, "distance or mismatch proportion differs", w.clone(), r.clone());
+                }
+            }
+        }
+    }
+    verdict("dist1", true, "", Value::Null, Value::Null)
 }
